@@ -18,7 +18,7 @@ FLOAT_OPS = ["VMul", "VMulDefault", "VAdd", "VAddDefault", "VAffine", "VAddNote"
 COLL_OPS = ["VCollSum", "FloatCollectionSumOperation"]
 FLOAT_PROBES = ["VValueProbe", "VScaledProbe", "VOffsetProbe", "FloatBasicProbe", "VMemoScaledProbe"]
 SINKS = ["VNullSink", "VFileSink", "FloatDataSink"]
-FAULTS = ["VBadWriter", "VBoom", "VBadType", "VCtxBadWriter"]
+FAULTS = ["VBadWriter", "VBoom", "VBadType", "VCtxBadWriter", "VWriteThenBoom", "VCtxWriteThenBoom"]
 SLICEABLE_OPS = ["VMul", "VMulDefault", "VAdd", "VAddDefault", "VAffine", "VAddNote", "FloatSquareOperation", "VInPlaceMul"]
 SLICEABLE_PROBES = ["VValueProbe", "VScaledProbe", "VOffsetProbe"]
 ODD_EXC = ["unicode_decode", "unicode_encode", "exception_group", "os_error", "key_error_tuple", "stop_iteration",
@@ -218,7 +218,7 @@ class Gen:
             wrong_type = ill and self.chance(0.12)
             # ---------------- context processors (any data type)
             if r < 0.16:
-                kind = rng.choice(["rename", "delete", "template", "VCtxScale"])
+                kind = rng.choice(["rename", "delete", "template", "VCtxScale", "VCtxScale", "VHookedCtx"])
                 if kind == "rename":
                     src = rng.choice(sorted(keys)) if keys and self.chance(0.85) else rng.choice(KEY_ALPHABET)
                     dst = rng.choice(KEY_ALPHABET) if self.chance(0.8) else src
@@ -238,6 +238,10 @@ class Gen:
                     tpl = f"{self.scratch}/t_" + "_".join("{%s}" % s for s in srcs) + ".txt"
                     node = {"processor": f"template:{q}{tpl}{q}:{out}"}
                     keys.add(out)
+                elif kind == "VHookedCtx":
+                    node = {"processor": "VHookedCtx"}
+                    pre = place_params(node, "VHookedCtx")
+                    keys.add("hooked")
                 else:
                     node = {"processor": "VCtxScale"}
                     pre = place_params(node, "VCtxScale")
@@ -247,6 +251,9 @@ class Gen:
                 f = force_fault or rng.choice(FAULTS)
                 faults_left -= 1
                 node = {"processor": f}
+                if f in ("VBadWriter", "VCtxBadWriter") and self.chance(0.4):
+                    # the undeclared key ALREADY EXISTS in the context: a write to an undeclared key is still a failure
+                    ctx.setdefault("undeclared_key", self.cval())
                 if f == "VBoom" and self.chance(0.5):
                     node["parameters"] = {"fuse": rng.choice([0.0, 1.0, 2.0])}
                 elif f == "VBoom" and force_fault is None and self.chance(0.3):
@@ -255,6 +262,9 @@ class Gen:
             # ---------------- by current data type
             elif cur == "NoData" or (wrong_type and self.chance(0.3)):
                 name = rng.choice(SOURCES)
+                if faults_left and force_fault is None and self.chance(0.25):
+                    name = "VBadPayloadSrc"      # returns a context key it does not declare as injected
+                    faults_left -= 1
                 node = {"processor": name}
                 if allow_sweeps and name in SWEEP_SRCS and self.chance(0.3):
                     blk = self.sweep_block(name, list_keys)
@@ -511,7 +521,7 @@ def flow_case(g: "Gen") -> dict:
     rng = g.rng
     pat = rng.choice(["use_before_create", "create_and_require_same", "delete_then_require", "delete_recreate_require",
                       "type_across_ctx", "type_after_passthrough", "sweep_key_downstream", "default_shadowed",
-                      "from_context_chain", "none_valued_key", "plain"])
+                      "from_context_chain", "none_valued_key", "plain", "from_context_named_like_swept_param"])
     src = {"processor": "VSrc", "parameters": {"value": g.val()}}
     key = rng.choice(["factor", "addend", "a", "scale", "offset"])
     consumer = {"factor": {"processor": "VMul"}, "addend": {"processor": "VAdd"}, "a": {"processor": "VAffine"},
@@ -585,6 +595,21 @@ def flow_case(g: "Gen") -> dict:
         k2, cons = rng.choice([("tag", {"processor": "VNullSink"}), ("scale", {"processor": "VScaledProbe", "context_key": "sp"}),
                                ("factor", {"processor": "VMulDefault"}), ("k", {"processor": "VCtxScale", "parameters": {"base": 2.0}})])
         nodes = [src, {"processor": "VNoneProbe", "context_key": k2}] + [filler() for _ in range(rng.randint(0, 1))] + [cons]
+    elif pat == "from_context_named_like_swept_param":
+        # a from_context key named exactly like the element parameter the expression computes (v <- "value", value = v * w);
+        # the loader may refuse it, but if the configuration is accepted both keys must be reported as required
+        kind = rng.choice(["source", "op", "probe"])
+        if kind == "source":
+            sweep = {"processor": "VSrc", "derive": {"parameter_sweep": {"parameters": {"value": "v * w"}, "variables": {"v": {"from_context": "value"}, "w": {"from_context": "weights"}},
+                                                                           "collection": "FloatDataCollection"}}}
+            nodes = [sweep, {"processor": "VCollSum"}]
+        elif kind == "op":
+            sweep = {"processor": "VMul", "derive": {"parameter_sweep": {"parameters": {"factor": "v * w"}, "variables": {"v": {"from_context": "factor"}, "w": {"from_context": "weights"}},
+                                                                           "collection": "FloatDataCollection"}}}
+            nodes = [src, sweep, {"processor": "VCollSum"}]
+        else:
+            sweep = {"processor": "VScaledProbe", "context_key": "pl", "derive": {"parameter_sweep": {"parameters": {"scale": "v * w"}, "variables": {"v": {"from_context": "scale"}, "w": {"from_context": "weights"}}}}}
+            nodes = [src, sweep]
     elif pat == "from_context_chain":
         nodes = [src, {"processor": "VAdd", "derive": {"parameter_sweep": {"parameters": {"addend": "s"}, "variables": {"s": {"from_context": "seq"}}, "collection": "FloatDataCollection"}}},
                  {"processor": "slice:VValueProbe:FloatDataCollection", "context_key": "each"},
